@@ -38,7 +38,12 @@ func (opt *Stop) Run(ctx app.Context) app.Error {
 	// Only fall back to yesterday if no explicit date has been given.
 	// Otherwise, it wouldn’t make sense to decrement the day.
 	shouldTryYesterday := opt.WasAutomatic()
-	yesterday := date.PlusDays(-1)
+	var yesterday klog.Date
+	if shouldTryYesterday {
+		// (With an explicit date there is no fallback, so the day before isn’t
+		// needed – it might not even exist, e.g. for `--date 0000-01-01`.)
+		yesterday = date.PlusDays(-1)
+	}
 	return util.Reconcile(ctx, util.ReconcileOpts{OutputFileArgs: opt.OutputFileArgs, WarnArgs: opt.WarnArgs},
 		[]reconciling.Creator{
 			reconciling.NewReconcilerAtRecord(date),
